@@ -252,6 +252,10 @@ class Interp:
         self.max_paths = max_paths
         self.steps = 0
         self.depth = 0
+        # symbolic mode: floats the library computes are opaque symbols (arithmetic on them builds terms, unknown library
+        # calls return a symbol of their own call, comparisons are answered by `oracle(op, a, b)`)
+        self.symbolic = False
+        self.oracle = None
 
     # ---------------------------------------------------------------- values / places
     def const(self, o):
@@ -327,17 +331,22 @@ class Interp:
                     v = v[2][e['i']]
                 elif isinstance(v, tuple):
                     v = v[e['i']]
+                elif self.symbolic and isinstance(v, Sym):
+                    v = Sym(('fld', v, e.get('name', e['i'])))
                 else:
                     raise Unsupported('field of %r' % (v,))
             elif k == 'index':
                 i = st[e['local']]
                 if not isinstance(i, int):
                     raise Undecided('symbolic index')
+                if self.symbolic and isinstance(v, Sym):
+                    v = Sym(('idx', v, i))
+                    continue
                 if not isinstance(v, (tuple, list)) or i >= len(v):
                     raise Undecided('index %r out of model bounds' % i)
                 v = v[i]
             elif k == 'cindex':
-                v = v[e['off']]
+                v = Sym(('idx', v, e['off'])) if (self.symbolic and isinstance(v, Sym)) else v[e['off']]
             elif k == 'downcast':
                 pass
             else:
@@ -443,6 +452,8 @@ class Interp:
                 return ('refval', self.read_place(st, p), ())
             if isinstance(r, tuple) and r and r[0] in ('ref', 'mref', 'refval'):
                 return (r[0], r[1], tuple(r[2]) + rest)
+            if isinstance(r, dict) and '#subslice' in r and not rest:
+                return r                  # reborrow of a narrowed mutable slice
             if isinstance(r, Sym):
                 if not rest:
                     return r              # `&*r` of an opaque reference is that reference
@@ -511,7 +522,7 @@ class Interp:
             a = self.op(st, rv['a'])
             o = rv['op']
             if o == 'Neg':
-                v = iv_neg(a) if isinstance(a, Iv) else (TOP if a is TOP else -a)
+                v = iv_neg(a) if isinstance(a, Iv) else (TOP if a is TOP else Sym(('neg', a)) if (self.symbolic and isinstance(a, Sym)) else -a)
             elif o == 'Not':
                 if isinstance(a, Cmp):
                     inv = {'Lt': 'Ge', 'Le': 'Gt', 'Gt': 'Le', 'Ge': 'Lt', 'Eq': 'Ne', 'Ne': 'Eq'}[a.op]
@@ -570,6 +581,15 @@ class Interp:
                     v = TOP
             else:
                 v = a
+                if self.symbolic and 'Unsize' in str(rv.get('kind')) and rv['op'].get('k') in ('copy', 'move'):
+                    # &[T; N] -> &[T] of a symbolic array: its N element symbols (the length is only in the source type)
+                    import re as _re
+                    m = _re.search(r'\[[^\[\];]+; (\d+)\]$', b.local_ty(rv['op']['place']['local']).strip())
+                    tgt = a
+                    while isinstance(tgt, tuple) and tgt and tgt[0] in ('ref', 'refval', 'mref'):
+                        tgt = self.deref(tgt, st)
+                    if m and isinstance(tgt, Sym):
+                        v = ('refval', tuple(Sym(('idx', tgt, i)) for i in range(int(m.group(1)))), ())
         elif k == 'repeat':
             a = self.op(st, rv['op'])
             n = int(str(rv['n']).split('_')[0]) if str(rv['n'])[0].isdigit() else None
@@ -657,6 +677,16 @@ class Interp:
                 return a << c
             if o == 'Shr':
                 return a >> c
+        if self.symbolic and (isinstance(a, Sym) or isinstance(c, Sym)) and isinstance(a, (Sym, Iv, int)) and isinstance(c, (Sym, Iv, int)):
+            if o in ('Add', 'Sub', 'Mul', 'Div', 'Rem'):
+                return Sym(('bin', o, a, c))
+            if o in ('Lt', 'Le', 'Gt', 'Ge', 'Eq', 'Ne'):
+                if o in ('Eq', 'Ne') and isinstance(a, Sym) and isinstance(c, Sym) and a == c:
+                    return o == 'Eq'
+                r = self.oracle(o, a, c) if self.oracle is not None else None
+                if r is None:
+                    raise Undecided('comparison %s of symbolic values %r, %r' % (o, a, c))
+                return Cmp(o, oa, ob, bool(r))
         if o in ('Eq', 'Ne') and isinstance(a, Sym) and isinstance(c, Sym):
             return (a == c) if o == 'Eq' else (a != c)
         raise Unsupported('binop %s on %r, %r' % (o, a, c))
@@ -705,6 +735,8 @@ class Interp:
         h = self.handlers.get(name) or self.handlers.get(callee_name(t))
         if h is None:
             h = BUILTINS.get(name)
+            if h is not None and self.symbolic and name.split('::')[0] in ('f64', 'f32') and any(isinstance(x, Sym) for x in args):
+                h = lambda I, st_, a, t_, b_: Sym(('call', name) + tuple(a))     # a float method on a symbolic value: its own symbol
         if h is not None:
             r = h(self, st, args, t, b)
             if isinstance(r, Fork):
@@ -723,6 +755,17 @@ class Interp:
             return None
         c = t['callee']
         target = c.get('resolved') if c.get('resolved') in self.prog.bodies else (c.get('path') if c.get('path') in self.prog.bodies else None)
+        if target is None and self.symbolic:
+            vals = []
+            for a in args:
+                while isinstance(a, tuple) and a and a[0] in ('ref', 'refval', 'mref'):
+                    a = self.deref(a, st)
+                vals.append(a if isinstance(a, (Sym, Iv, int, str)) else Sym(('val', repr(a)[:80])))
+            r = Sym(('call', name) + tuple(vals))
+            if not t['dest']['proj']:
+                self._kill_alias(st, t['dest']['local'])
+            self.write_place(st, t['dest'], r)
+            return None
         if target is None:
             raise Unsupported('call to %s at %s' % (name, b.where(bb)))
         if self.prog.bodies[target].kind == 'Closure' and len(args) == 2 and isinstance(args[1], tuple) and len(args[1]) == self.prog.bodies[target].arg_count - 1:
@@ -743,6 +786,7 @@ class Interp:
         callee = self.prog.bodies[target]
         mut_params = [i for i in range(len(args)) if callee.local_ty(i + 1).startswith('&mut ')]
         sub = Interp(self.prog, self.handlers, self.fuel, self.max_paths)
+        sub.symbolic, sub.oracle = self.symbolic, self.oracle
         sub.steps = self.steps
         sub.depth = self.depth
         if mut_params:
@@ -995,10 +1039,29 @@ def h_into_iter(I, st, a, t, b):
     raise Unsupported('into_iter on %r' % (v,))
 
 
+def _sym_array_len(t, b):
+    """length N when the receiver of the call is (a reference to) an array [T; N] by the type of the argument local"""
+    import re as _re
+    o = t['args'][0]
+    if o.get('k') in ('copy', 'move'):
+        ty = b.local_ty(o['place']['local'])
+        m = _re.search(r'\[[^\[\];]+; (\d+)\]$', ty.strip())
+        if m:
+            return int(m.group(1))
+    m = _re.search(r'\[[^\[\];]+; (\d+)(?:_usize)?\]', t['callee'].get('args') or '')
+    return int(m.group(1)) if m else None
+
+
 def h_iter(I, st, a, t, b):
     tgt = _deref_arg(I, st, a[0])
+    while isinstance(tgt, tuple) and tgt and tgt[0] in ('ref', 'refval', 'mref'):
+        tgt = I.deref(tgt, st)
     if isinstance(tgt, (tuple, list)):
         return {'#iter': 'seq', 'items': tuple(('refval', x, ()) for x in tgt), 'pos': 0}
+    if I.symbolic and isinstance(tgt, Sym):
+        n = _sym_array_len(t, b)
+        if n is not None:
+            return {'#iter': 'seq', 'items': tuple(('refval', Sym(('idx', tgt, k)), ()) for k in range(n)), 'pos': 0}
     raise Unsupported('iter on %r' % (tgt,))
 
 
@@ -1069,6 +1132,7 @@ def h_call_closure(I, st, a, t, b):
             return h(I, st, list(a[1]), t, b)
         if path in I.prog.bodies:
             sub = Interp(I.prog, I.handlers, I.fuel, I.max_paths)
+            sub.symbolic, sub.oracle = I.symbolic, I.oracle
             sub.steps = I.steps
             sub.depth = I.depth + 1
             outs = sub.run(path, list(a[1]))
@@ -1079,6 +1143,7 @@ def h_call_closure(I, st, a, t, b):
         raise Unsupported('call of non-closure %r' % (fv,))
     args = [('refval', fv, ())] + list(a[1])
     sub = Interp(I.prog, I.handlers, I.fuel, I.max_paths)
+    sub.symbolic, sub.oracle = I.symbolic, I.oracle
     sub.steps = I.steps
     sub.depth = I.depth + 1
     outs = sub.run(fv['#closure'], args)
@@ -1136,6 +1201,7 @@ def _call_f(I, st, f, args, multi=False):
     while isinstance(fv, tuple) and fv and fv[0] in ('ref', 'refval', 'mref'):
         fv = I.deref(fv, st)
     sub = Interp(I.prog, I.handlers, I.fuel, I.max_paths)
+    sub.symbolic, sub.oracle = I.symbolic, I.oracle
     sub.steps = I.steps
     sub.depth = I.depth + 1
     if hasattr(I, 'gen_checks'):
@@ -1146,7 +1212,26 @@ def _call_f(I, st, f, args, multi=False):
         fv['#caps'] = tuple(_snapshot_ref(I, st, c) for c in fv['#caps'])
         cb = I.prog.bodies.get(fv['#closure'])
         by_ref = cb is None or cb.local_ty(1).lstrip().startswith('&')      # Fn / FnMut bodies take &env, FnOnce bodies the env itself
-        outs = sub.run(fv['#closure'], [('refval', fv, ()) if by_ref else fv] + list(args))
+        call_args = [('refval', fv, ()) if by_ref else fv]
+        mut_idx = []
+        for i, x in enumerate(args):
+            if isinstance(x, tuple) and x and x[0] in ('ref', 'mref') and len(x) == 3:
+                # a reference into this frame handed to the closure: a mutable one is written through, a shared one is read
+                if cb is not None and i + 2 <= cb.arg_count and cb.local_ty(i + 2).startswith('&mut'):
+                    mut_idx.append(i + 1)
+                call_args.append(('refval', I.deref(x, st), ()))
+            else:
+                call_args.append(x)
+        if mut_idx:
+            res = sub.run_with_cells(fv['#closure'], call_args, mut_idx)
+            I.steps = sub.steps
+            if len(res) != 1:
+                raise Undecided('closure forks inside a combinator')
+            o, back = res[0]
+            for k, v in back.items():
+                I._write_ref(st, args[k - 1], v)
+            return [o.ret] if multi else o.ret
+        outs = sub.run(fv['#closure'], call_args)
     elif isinstance(fv, Sym) and isinstance(fv.tag, tuple) and fv.tag[0] == 'fn' and fv.tag[1] in I.prog.bodies:
         outs = sub.run(fv.tag[1], list(args))
     else:
@@ -1325,11 +1410,15 @@ def h_vec_push(I, st, a, t, b):
 
 def h_vec_index(I, st, a, t, b):
     seq = _deref_arg(I, st, a[0])
+    while isinstance(seq, tuple) and seq and seq[0] in ('ref', 'refval', 'mref'):
+        seq = I.deref(seq, st)
     k = a[1]
-    if isinstance(seq, (tuple, list)) and isinstance(k, int) and not isinstance(k, bool):
+    if isinstance(seq, (tuple, list)) and not (seq and seq[0] == 'enum') and isinstance(k, int) and not isinstance(k, bool):
         if 0 <= k < len(seq):
             return ('refval', seq[k], ())
         raise Undecided('index %d out of bounds (len %d)' % (k, len(seq)))
+    if I.symbolic and isinstance(seq, Sym):
+        return ('refval', Sym(('idx', seq, k if isinstance(k, (int, Sym)) else repr(k))), ())
     return h_index_range(I, st, a, t, b)
 
 
@@ -1426,12 +1515,36 @@ def h_partial_cmp(I, st, a, t, b):
 def h_iter_mut(I, st, a, t, b):
     """slice::iter_mut / Vec::iter_mut: one reference per element, written through (`for x in v.iter_mut() { *x = .. }`)"""
     r = a[0]
+    if isinstance(r, dict) and '#subslice' in r:
+        base, lo, hi = r['#subslice']
+        return {'#iter': 'seq', 'items': tuple((base[0], base[1], tuple(base[2]) + ({'k': 'cindex', 'off': i},)) for i in range(lo, hi)), 'pos': 0}
     if not (isinstance(r, tuple) and r and r[0] in ('ref', 'mref')):
         raise Unsupported('iter_mut on %r' % (r,))
     tgt = I.deref(r, st)
     if not isinstance(tgt, (tuple, list)):
         raise Unsupported('iter_mut over %r' % (tgt,))
     return {'#iter': 'seq', 'items': tuple((r[0], r[1], tuple(r[2]) + ({'k': 'cindex', 'off': i},)) for i in range(len(tgt))), 'pos': 0}
+
+
+def h_index_mut(I, st, a, t, b):
+    """`&mut v[a..b]`: the reference to v narrowed to the range (only iter_mut() is modelled on it); `&mut v[k]`: the element"""
+    r = a[0]
+    if isinstance(r, tuple) and r and r[0] in ('ref', 'mref'):
+        tgt = I.deref(r, st)
+        k = a[1]
+        if isinstance(tgt, (tuple, list)) and isinstance(k, int) and not isinstance(k, bool):
+            if 0 <= k < len(tgt):
+                return (r[0], r[1], tuple(r[2]) + ({'k': 'cindex', 'off': k},))
+            raise Undecided('index %d out of bounds' % k)
+        if isinstance(tgt, (tuple, list)) and isinstance(k, dict) and '#adt' in k:
+            kind = k['#adt'].split('::')[-1]
+            lo = k.get('start', 0) if kind in ('Range', 'RangeFrom') else 0
+            hi = k.get('end', len(tgt)) if kind in ('Range', 'RangeTo') else len(tgt)
+            if kind == 'RangeToInclusive':
+                hi = k['end'] + 1
+            if isinstance(lo, int) and isinstance(hi, int) and 0 <= lo <= hi <= len(tgt):
+                return {'#subslice': (r, lo, hi)}
+    raise Unsupported('index_mut of %r by %r' % (r, a[1]))
 
 
 def h_index_range(I, st, a, t, b):
@@ -1525,5 +1638,6 @@ BUILTINS.update({
     'array::map': h_array_map, 'array::from_fn': h_array_from_fn, 'RangeInclusive::new': h_range_inclusive, 'PartialOrd::partial_cmp': h_partial_cmp,
     'Vec::is_empty': h_is_empty, 'slice::is_empty': h_is_empty, 'slice::last': h_seq_last, 'slice::first': h_seq_first, 'slice::get': h_seq_get,
     'iter::once': h_iter_once, 'sources::once': h_iter_once, 'once::once': h_iter_once, 'Iterator::chain': h_iter_chain, 'slice::windows': h_windows, 'Option::unwrap': h_opt_unwrap,
+    'IndexMut::index_mut': h_index_mut,
     'Index::index': h_vec_index, 'Vec::new': h_vec_new, 'Vec::with_capacity': h_vec_new, 'Vec::push': h_vec_push, 'slice::iter_mut': h_iter_mut, 'Vec::iter_mut': h_iter_mut, 'Iterator::filter': h_iter_filter, 'Iterator::filter_map': h_iter_filter_map, 'Extend::extend': h_extend, 'Vec::extend': h_extend,
 })
